@@ -46,6 +46,8 @@ def run(ctx):
     d2_creators(ctx)
     d5_forwarding(ctx, c)
     d6_encoder(ctx)
+    from ._shared import encoding_agreement
+    encoding_agreement(ctx, 'D7', kinds=('json',))
 
 
 def d1_no_cache(ctx, c, reader):
@@ -294,6 +296,35 @@ def d2_creators(ctx):
                            detail='the creator writes metadata.json for metadata={} (or None), or skips it for '
                                   'non-empty metadata')
     ctx.floor('C13 creation-time metadata writers', n, 2)
+    d2b_stale_metadata(ctx, 'D2')
+
+
+def d2b_stale_metadata(ctx, clause):
+    # D2b: a creator that receives no metadata (None or {}) removes a metadata.json left by an overwritten array:
+    # under both bindings some deletion of the metadata file stays reachable and the write does not
+    from ..pathcond import reach_under
+    from ._trunc import folder
+    from ..cfg import cfg_of as _cfg
+    for spec in ('array.asarray', 'raggedarray.asraggedarray'):
+        f = ctx.repo.func(spec)
+        if 'metadata' not in f.params:
+            continue
+        g = _cfg(f)
+        dels = [e.node for e in ctx.E.primitives(f) if e.kind == 'DELETE']
+        dels += [nd for nd, cal in ctx.E.callees(f) if isinstance(nd, ast.Call) and cal.cls is not None and
+                 cal.cls.name == 'DataDir' and any(e.kind == 'DELETE' for e in ctx.E.may(cal))]
+        writes = [c_ for c_, _ in _write_sites(ctx, f)]
+        bad = []
+        for label, md in (('None', None), ('{}', {})):
+            may = reach_under(f, folder({'metadata': md}, f))
+            if not any(g.node_for(d) in may for d in dels):
+                bad.append(f'metadata={label}: no removal of a stale metadata.json is reachable')
+            if any(g.node_for(w) in may for w in writes):
+                bad.append(f'metadata={label}: the file is written')
+        ctx.decide(not bad, 'R-SIB', clause, f, dels[0] if dels else None, 'creator-removes-stale-metadata',
+                   f'{f.qualname}: when no metadata are given (None or {{}}) a metadata.json left by an overwritten array is removed',
+                   detail='; '.join(bad) + ' — the new array (e.g. a copy of an array without metadata onto an existing path) '
+                                            'carries the previous occupant\'s metadata')
 
 
 def d5_forwarding(ctx, c):
